@@ -183,7 +183,7 @@ func runShutRace(k int) (pc pubCase, obs []string, accepted int, closes int) {
 	for i := range acc {
 		accepted += len(acc[i])
 	}
-	deadline := time.Now().Add(300 * time.Millisecond)
+	deadline := time.Now().Add(2 * time.Second) // only ever waited out when a close is really missing
 	for {
 		mu.Lock()
 		closes = 0
